@@ -174,6 +174,7 @@ bool TlsWorld::connect(bool use_sid) {
     c.sigalgs = pc.sigalgs_c; s.sigalgs = pc.sigalgs_s;
     c.sid = use_sid ? sid : nullptr;
     srv.reset(new MxEndpoint()); cli.reset(new MxEndpoint());
+    srv->keep_log = cli->keep_log = keep_logs;
     int rs = srv->create(s, skeys);
     int rcl = cli->create(c, ckeys);
     fp.add((uint64_t) (int64_t) rs); fp.add((uint64_t) (int64_t) rcl);
